@@ -163,7 +163,7 @@ package roundrobin
 //@   props C01 C02
 //@   modifies r.index, r.currentWeight
 //@   ensures empty_pool_fails: len(r.servers) == 0 ==> result1 != nil && result0 == nil
-//@   ensures fresh_copy: result1 == nil ==> result0 != nil && fresh(result0) && member(r, result0)
+//@   ensures {C01,C02,C09} fresh_copy: result1 == nil ==> result0 != nil && fresh(result0) && member(r, result0)
 //@   ensures positive_weight: result1 == nil ==> (exists i int :: 0 <= i && i < len(r.servers) && sameID(result0, r.servers[i].url) && r.servers[i].weight >= 1)
 
 //@ func SetDefaultWeight
@@ -196,7 +196,7 @@ package roundrobin
 //@   ensures one_outcome: calls(r.next.ServeHTTP) + calls(r.errHandler.ServeHTTP) == 1
 //@   ensures error_only_without_server: calls(r.errHandler.ServeHTTP) == 1 ==> calls(NextServer) == 1 && callres(NextServer, 0, 1) != nil
 //@   at_call r.next.ServeHTTP routed_to_selection: (calls(NextServer) == 1 && callres(NextServer, 0, 1) == nil && arg1.URL == callres(NextServer, 0, 0)) || (calls(NextServer) == 0 && callres(GetBackend, 0, 1) && sameID(arg1.URL, callres(GetBackend, 0, 0)))
-//@   at_call r.next.ServeHTTP fresh_url: fresh(arg1.URL)
+//@   at_call r.next.ServeHTTP {C02,C09,C11,C20} fresh_url: fresh(arg1.URL)
 
 //@ extern (*net/http.Request).Cookie
 //@   params req name
